@@ -455,11 +455,18 @@ def _read_request(
     # Store trace context in contextvar for hook consumption (pipe/subprocess transport)
     tp = custom_metadata.get(TRACEPARENT_KEY) if custom_metadata else None
     if tp is not None:
-        headers: dict[str, str] = {"traceparent": tp.decode()}
-        ts = custom_metadata.get(TRACESTATE_KEY) if custom_metadata else None
-        if ts is not None:
-            headers["tracestate"] = ts.decode()
-        _current_trace_headers.set(headers)
+        # Trace context is best-effort: a value that is not UTF-8 cannot be a
+        # W3C trace header, so it is dropped rather than allowed to raise out
+        # of the request path (which would end the connection unanswered).
+        try:
+            headers: dict[str, str] = {"traceparent": tp.decode()}
+            ts = custom_metadata.get(TRACESTATE_KEY) if custom_metadata else None
+            if ts is not None:
+                headers["tracestate"] = ts.decode()
+        except UnicodeDecodeError:
+            pass
+        else:
+            _current_trace_headers.set(headers)
     # If the outer batch is an external-location pointer, fetch the
     # referenced bytes and use the inner batch's columns for kwargs.
     # Dispatch metadata (method name, request version, traceparent) is
